@@ -76,13 +76,7 @@ func VxC05FailedPruneKeepsFloorAheadOfDisk() {
 	if vx.Bool("neverRotate") {
 		batchSize = 1 << 30
 	}
-	p := &Pruner{
-		targetBatchByteSize: batchSize,
-		retentionFloor:      floor,
-		database:            vxFailStore{d, st},
-		listener:            &SelectiveListener{},
-		logger:              log.NewNopZapLogger(),
-	}
+	p := New(vxFailStore{d, st}, floor, 0, nil, nil, log.NewNopZapLogger(), WithTargetBatchByteSize(batchSize))
 	end := vx.U64("end")
 	vx.Assume(end <= n)
 	err := p.pruneUpto(context.Background(), end)
